@@ -13,6 +13,8 @@ import (
 	"os"
 	"path/filepath"
 	"strings"
+	"sync"
+	"time"
 
 	log "github.com/go-spring/log"
 )
@@ -137,6 +139,90 @@ func c10Scoped(w *W, tag *log.Tag) {
 		if okAll {
 			w.Distinct("request-scoped-hook-slices|" + v.kind + "|" + v.layout)
 			w.Count("request_scoped_lines_checked", int64(len(ids)))
+		}
+	}
+}
+
+var c10secOnce sync.Once
+
+// c10RollingBoundary: the built-in rolling-file logger with a one-second period, all three hooks installed and counting; three
+// events, then across a real boundary (the first write of the new period performs the rotation), three more. Per emitted event:
+// every hook exactly once, with the caller's context - also for the event whose write rotates the file.
+func c10RollingBoundary(w *W, tag *log.Tag) {
+	c10secOnce.Do(func() { log.RegisterTimeRotation("c10sec", log.TimeRotation{Interval: time.Second}) })
+	for vi, async := range []string{"false", "true"} {
+		dir := filepath.Join(w.Spec.Dir, fmt.Sprintf("%s.rb%d", w.Spec.Name, vi))
+		_ = os.MkdirAll(dir, 0o755)
+		cfg := map[string]string{"appender.unused.type": "Discard", "logger.lg.type": "RollingFile", "logger.lg.tags": "c10tag", "logger.lg.fileDir": dir, "logger.lg.fileName": "rb.log",
+			"logger.lg.rotation": "c10sec", "logger.lg.async": async, "logger.lg.layout.type": "JSONLayout"}
+		cs := map[string]any{"scenario": "rolling-file logger, one-second period, hooks counted across a real boundary", "async": async}
+		if err := log.Refresh(cfg); err != nil {
+			w.Note("rolling boundary scenario: Refresh failed: " + err.Error())
+			log.Destroy()
+			_ = os.RemoveAll(dir)
+			continue
+		}
+		type counts struct{ t, s, f, foreign int }
+		var mu sync.Mutex
+		per := map[any]*counts{}
+		get := func(c context.Context) *counts {
+			mu.Lock()
+			defer mu.Unlock()
+			var k any
+			if c != nil {
+				k = c.Value(c10scopeKey{})
+			}
+			if k == nil {
+				k = "<not a caller's context>"
+			}
+			if per[k] == nil {
+				per[k] = &counts{}
+			}
+			return per[k]
+		}
+		log.TimeNow = func(c context.Context) time.Time { get(c).t++; return time.Now() }
+		log.StringFromContext = func(c context.Context) string { get(c).s++; return "cs" }
+		log.FieldsFromContext = func(c context.Context) []log.Field { get(c).f++; return nil }
+		n := 0
+		emit := func() {
+			n++
+			ctx := context.WithValue(context.Background(), c10scopeKey{}, fmt.Sprintf("call-%d", n))
+			log.Info(ctx, tag, log.Msg(fmt.Sprintf("id-rb%d-%d", vi, n)))
+		}
+		for i := 0; i < 3; i++ {
+			emit()
+		}
+		now := time.Now()
+		time.Sleep(time.Until(now.Truncate(time.Second).Add(time.Second + 20*time.Millisecond)))
+		for i := 0; i < 3; i++ {
+			emit()
+		}
+		log.Destroy() // drains the asynchronous variant
+		log.TimeNow, log.StringFromContext, log.FieldsFromContext = nil, nil, nil
+		ents, _ := os.ReadDir(dir)
+		_ = os.RemoveAll(dir)
+		okAll := true
+		mu.Lock()
+		for k, c := range per {
+			w.Eval(1)
+			if k == "<not a caller's context>" {
+				okAll = false
+				w.Violate("C10:wrong-context", fmt.Sprintf("rolling-file logger across a period boundary: hooks were invoked with a context that is no caller's (TimeNow %d, StringFromContext %d, FieldsFromContext %d times)", c.t, c.s, c.f), cs)
+				continue
+			}
+			if c.t != 1 || c.s != 1 || c.f != 1 {
+				okAll = false
+				w.Violate("C10:hook-count:TimeNow:enabled", fmt.Sprintf("rolling-file logger across a period boundary: for %v the hooks ran TimeNow x%d, StringFromContext x%d, FieldsFromContext x%d (each must run exactly once)", k, c.t, c.s, c.f), cs)
+			}
+		}
+		if len(per) < n {
+			okAll = false
+			w.Violate("C10:hook-count:TimeNow:enabled", fmt.Sprintf("rolling-file logger: %d events were logged, hooks ran for %d of them", n, len(per)), cs)
+		}
+		mu.Unlock()
+		if okAll && len(ents) >= 2 {
+			w.Distinct("rolling-boundary-hooks|async=" + async)
+			w.Count("rolling_boundary_events_with_counted_hooks", int64(n))
 		}
 	}
 }
